@@ -5,7 +5,8 @@ replay files, evidence.  Exit codes: 0 property held on everything explored (KNO
 """
 import hashlib, json, multiprocessing as mp, os, random, shutil, sys, time, traceback
 
-from . import tlc
+from . import tlc, hang
+from .hang import StimulusTimeout
 
 VERIF = tlc.VERIF
 EVID = os.environ.get("VERIF_EVIDENCE_DIR") or os.path.join(VERIF, "evidence")
@@ -63,6 +64,8 @@ class Check:
         self.tier = tier or os.environ.get("VERIF_TIER", "quick")
         if self.tier not in ("quick", "thorough"):
             self.tier = "quick"
+        hang.OUTER_T[0] = hang.HANG_T * (1 if self.tier == "quick" else 12)
+        hang.ESCALATE[0] = (self.tier == "quick")     # quick-tier stimuli are small: a call silent for watchdog + HANG_T seconds is a hang (harness/hang.py)
         self.seed = int(seed if seed is not None else os.environ.get("VERIF_SEED", "20260929"))
         self.rng = random.Random(self.seed * 1000003 + int(pid[1:]))
         self.level = level
@@ -297,7 +300,7 @@ class Check:
             "timeouts": self.timeouts,
             "unjudgeable_traces": len(self.unjudgeable),
             "max_stimulus_s": round(_MAXDT.value, 2),
-            "stimulus_timeout_s": HANG_T,
+            "stimulus_timeout_s": hang.OUTER_T[0],
             "known_finding_hits": {self.known[i]["what"]: n for i, n in self.known_hits.items()},
             "notes": self.notes,
         }
@@ -321,10 +324,6 @@ class Check:
 
 
 # ---------------------------------------------------------------- parallel execution of the real code
-class StimulusTimeout(BaseException):
-    """raised by the per-stimulus alarm; a BaseException so that the drivers' `except Exception` does not swallow it"""
-
-
 class HangFound(Exception):
     def __init__(self, fn, stimulus, seconds):
         Exception.__init__(self, "%s gave no answer within %ds" % (fn, seconds))
@@ -333,25 +332,19 @@ class HangFound(Exception):
 
 # A call of the library that does not come back: every stimulus of a clean tree answers in well under a minute (the slowest one is
 # printed in the evidence as max_stimulus_s), so a stimulus that is still running after HANG_T seconds - twice, the second time alone -
-# is reported as a violation ("no answer") instead of hanging the whole check.
-HANG_T = float(os.environ.get("VERIF_STIMULUS_TIMEOUT", "300"))
+# is reported as a violation ("no answer") instead of hanging the whole check.  Timer discipline: harness/hang.py.
+HANG_T = hang.HANG_T
 HANG_LIMIT = 2
 _HANGS = mp.Value("i", 0)
 _MAXDT = mp.Value("d", 0.0)
 _HANG = "__hang__"
 
 
-def _alarm(signum, frame):
-    raise StimulusTimeout()
-
-
 def _guarded(fn, x):
-    import signal
     if _HANGS.value >= HANG_LIMIT:
         return {_HANG: "skipped"}
-    signal.signal(signal.SIGALRM, _alarm)
     t0 = time.time()
-    signal.setitimer(signal.ITIMER_REAL, HANG_T)
+    hang.outer_begin(hang.OUTER_T[0])
     try:
         return fn(x)
     except StimulusTimeout:
@@ -359,7 +352,7 @@ def _guarded(fn, x):
             _HANGS.value += 1
         return {_HANG: "timeout"}
     finally:
-        signal.setitimer(signal.ITIMER_REAL, 0)
+        hang.outer_end()
         dt = time.time() - t0
         if dt > _MAXDT.value:
             with _MAXDT.get_lock():
@@ -388,7 +381,7 @@ def pmap(fn, items, procs=16, chunksize=None):
             with ctx.Pool(1) as pool:
                 res[i] = pool.map(g, [items[i]])[0]
             if _is_hang(res[i]):
-                raise HangFound(getattr(fn, "__module__", "?") + "." + getattr(fn, "__name__", "?"), items[i], int(HANG_T))
+                raise HangFound(getattr(fn, "__module__", "?") + "." + getattr(fn, "__name__", "?"), items[i], int(hang.OUTER_T[0]))
     return res
 
 
